@@ -113,6 +113,24 @@ def _shape_pool(long_max):
     return [G.render(t, "spaced") for t in G.chain_unions(REQ_ALPHA, 2, long_max)]
 
 
+def _converge_pool():
+    """(P1 c S1 | P2 c) T : two routes of different shape that meet in the same matcher state after consuming the
+    required symbol c, one having spent more of its consecutive-insert allowance than the other (a search that
+    prunes on (symbols left, matcher state) alone, or forgets how many insertions preceded, goes wrong here)."""
+    out = []
+    for i in range(0, 3):
+        for ls in (1, 2):
+            for s1 in itertools.product("ab", repeat=ls):
+                for j in (1, 2, 3):
+                    for lt in (1, 2, 3):
+                        for t in itertools.product("ab", repeat=lt):
+                            left = " ".join(["a"] * i + ["c"] + list(s1))
+                            right = " ".join(["b"] * j + ["c"])
+                            out.append("(%s | %s) %s" % (left, right, " ".join(t)))
+                            out.append("(%s | %s) %s" % (right, left, " ".join(t)))
+    return out
+
+
 def _real_picture_lists(max_pics, groups):
     out = [[]]
     for n in range(1, max_pics + 1):
@@ -163,6 +181,9 @@ def plan(tier, seed):
     size = 24
     for i in range(0, len(shape), size):
         cases.append({"kind": "shape", "long": p["shape_long"], "req": p["shape_req"], "lo": i, "hi": min(len(shape), i + size), "w": size * nreq * 3 * 1.8})
+    conv = _converge_pool()
+    for i in range(0, len(conv), 48):
+        cases.append({"kind": "converge", "lo": i, "hi": min(len(conv), i + 48), "w": 48 * 4 * 3.0})
     nlists = len(_real_picture_lists(p["real_pics"], p["frag_groups"]))
     n_extra = len([1 for o in G.source_patterns().values() if any("test_cases" in x for x in o)])
     for text, lvls in _distinct_level_texts():
@@ -356,6 +377,13 @@ def _run_case(case, ctx):
                 for d in DEPTHS:
                     _judge(ctx, req, [pool[i]], d, [], "shape")
         ctx.sample({"stratum": "shape", "pattern": pool[case["lo"]], "required": "every list of length 0..%d over a,b,c" % case["req"], "depth_limit": DEPTHS})
+    elif kind == "converge":
+        pool = _converge_pool()
+        for i in range(case["lo"], case["hi"]):
+            ctx.count("converge_patterns")
+            for d in (1, 2, 3, 4):
+                _judge(ctx, ["c"], [pool[i]], d, [], "converge")
+        ctx.sample({"stratum": "converge", "pattern": pool[case["lo"]], "required": ["c"], "depth_limit": [1, 2, 3, 4]})
     elif kind == "real":
         levels = dict(G.level_patterns())
         src = G.source_patterns()
@@ -396,6 +424,8 @@ def floor(agg, tier):
     exp_single = len(_single_pool(p["single_nodes"]))
     if c.get("single_patterns", 0) != exp_single:
         miss.append("single stratum incomplete: %d of %d patterns" % (c.get("single_patterns", 0), exp_single))
+    if c.get("converge_patterns", 0) != len(_converge_pool()):
+        miss.append("converge stratum incomplete: %d of %d patterns" % (c.get("converge_patterns", 0), len(_converge_pool())))
     exp_shape = len(_shape_pool(p["shape_long"]))
     if c.get("shape_patterns", 0) != exp_shape:
         miss.append("shape stratum incomplete: %d of %d patterns" % (c.get("shape_patterns", 0), exp_shape))
